@@ -1,4 +1,5 @@
 import ESV.Comp.CgMain
+import ESV.Comp.CgAlloc
 /-
 `codegen_correct`: from pieces to routines — the guards the fragment implies, the graph of the program, the tables of the
 front end.
@@ -11,27 +12,18 @@ open ESV ESV.Beh
 structure StmtFacts (s : Stmt) : Prop where
   ok : okStmt s = true
   w : wStmt s = true
-  df : dfStmt s = []
-  labs : Src.labelsOf (toSrcStmt s) = []
 
 structure StmtsFacts (ss : Stmts) : Prop where
   ok : okStmts ss = true
   w : wStmts ss = true
-  df : dfStmts ss = []
-  labs : Src.labelsOfStmts (toSrcStmts ss) = []
 
 structure ElifsFacts (es : Elifs) : Prop where
   ok : okElifs es = true
   w : wElifs es = true
-  dfA : dfElifsA es = []
-  dfB : dfElifsB es = []
-  labs : Src.labelsOfBranches (toSrcElifs es) = []
 
-structure CasesFacts (sw : String) (cs : Cases) : Prop where
+structure CasesFacts (cs : Cases) : Prop where
   ok : okCases cs = true
   w : wCases cs = true
-  df : dfCases cs = []
-  labs : Src.labelsOfCases (toSrcCases sw cs) = []
 
 theorem f0_inner_facts (c : String) (cp : ESV.Param) (inner : Stmt) (hc : isCtx c = true) (h : f0Inner inner = true) :
     StmtFacts (.with_ c cp inner) := by
@@ -39,25 +31,25 @@ theorem f0_inner_facts (c : String) (cp : ESV.Param) (inner : Stmt) (hc : isCtx 
   | op n ps =>
     simp only [f0Inner, Bool.and_eq_true] at h
     obtain ⟨a, b⟩ := nameOK_split n h.1
-    exact ⟨by simp [okStmt, a, b, ctx_notJump c hc], by simp [wStmt, innerOK, a, h.2], rfl, by simp [toSrcStmt, Src.labelsOf]⟩
-  | end_ => exact ⟨by simp [okStmt, ctx_notJump c hc], by simp [wStmt, innerOK], rfl, by simp [toSrcStmt, Src.labelsOf]⟩
-  | hold => exact ⟨by simp [okStmt, ctx_notJump c hc], by simp [wStmt, innerOK], rfl, by simp [toSrcStmt, Src.labelsOf]⟩
+    exact ⟨by simp [okStmt, b, ctx_notJump c hc], by simp [wStmt, innerOK, a, h.2]⟩
+  | end_ => exact ⟨by simp [okStmt, ctx_notJump c hc], by simp [wStmt, innerOK]⟩
+  | hold => exact ⟨by simp [okStmt, ctx_notJump c hc], by simp [wStmt, innerOK]⟩
   | _ => simp [f0Inner] at h
 
 theorem simple_facts : ∀ (s : Stmt), cgSimple s = true → StmtFacts s ∧ simpleStmt s = true
   | .op n ps, h => by
     obtain ⟨a, b⟩ := nameOK_split n (by simpa [cgSimple] using h)
-    exact ⟨⟨by simp [okStmt, b], by simp [wStmt, a], rfl, by simp [toSrcStmt, Src.labelsOf]⟩, rfl⟩
+    exact ⟨⟨by simp [okStmt, b], by simp [wStmt, a]⟩, rfl⟩
   | .inl c cp n ps, h => by
     simp only [cgSimple, Bool.and_eq_true] at h
     obtain ⟨a, b⟩ := nameOK_split n h.1.2
-    exact ⟨⟨by simp [okStmt, b, ctx_notJump c h.1.1], by simp [wStmt, a, h.2], rfl, by simp [toSrcStmt, Src.labelsOf]⟩, rfl⟩
+    exact ⟨⟨by simp [okStmt, b, ctx_notJump c h.1.1], by simp [wStmt, a, h.2]⟩, rfl⟩
   | .with_ c cp inner, h => by
     simp only [cgSimple, Bool.and_eq_true] at h
     exact ⟨f0_inner_facts c cp inner h.1 h.2, rfl⟩
-  | .ret, _ => ⟨⟨by simp [okStmt], by simp [wStmt], rfl, by simp [toSrcStmt, Src.labelsOf]⟩, rfl⟩
-  | .end_, _ => ⟨⟨by simp [okStmt], by simp [wStmt], rfl, by simp [toSrcStmt, Src.labelsOf]⟩, rfl⟩
-  | .hold, _ => ⟨⟨by simp [okStmt], by simp [wStmt], rfl, by simp [toSrcStmt, Src.labelsOf]⟩, rfl⟩
+  | .ret, _ => ⟨⟨by simp [okStmt], by simp [wStmt]⟩, rfl⟩
+  | .end_, _ => ⟨⟨by simp [okStmt], by simp [wStmt]⟩, rfl⟩
+  | .hold, _ => ⟨⟨by simp [okStmt], by simp [wStmt]⟩, rfl⟩
   | .ite .., h => by simp [cgSimple] at h
   | .label _, h => by simp [cgSimple] at h
   | .jump _, h => by simp [cgSimple] at h
@@ -84,98 +76,176 @@ theorem cg_stmt_facts (lv : Nat) : ∀ (s : Stmt), cgStmt lv s = true → StmtFa
     have f1 := cg_stmts_facts lv body h.1.1.2
     have f2 := cg_elifs_facts lv elifs h.1.2
     have f3 := cg_stmts_facts lv els h.2
-    refine ⟨by simp [okStmt, f1.ok, f2.ok, f3.ok], by simp [wStmt, h.1.1.1, f1.w, f2.w, f3.w], ?_, ?_⟩
-    · simp only [dfStmt, f1.df, f2.dfA, f2.dfB, f3.df]; cases hasElse <;> rfl
-    · simp [toSrcStmt, Src.labelsOf, Src.labelsOfBranches, f1.labs, f2.labs, f3.labs]
-  | .cont, _ => ⟨rfl, rfl, rfl, by simp [toSrcStmt, Src.labelsOf]⟩
-  | .brkLoop, _ => ⟨rfl, rfl, rfl, by simp [toSrcStmt, Src.labelsOf]⟩
+    exact ⟨by simp [okStmt, f1.ok, f2.ok, f3.ok], by simp [wStmt, h.1.1.1, f1.w, f2.w, f3.w]⟩
+  | .cont, _ => ⟨rfl, rfl⟩
+  | .brkLoop, _ => ⟨rfl, rfl⟩
   | .forever body, h => by
     simp only [cgStmt, Bool.and_eq_true] at h
     have f1 := cg_stmts_facts lv body h.2
-    exact ⟨by simp [okStmt, f1.ok], by simp [wStmt, f1.w], by simp [dfStmt, f1.df], by simp [toSrcStmt, Src.labelsOf, f1.labs]⟩
+    exact ⟨by simp [okStmt, f1.ok], by simp [wStmt, f1.w]⟩
   | .while_ neg hd body, h => by
     simp only [cgStmt, Bool.and_eq_true] at h
     have f1 := cg_stmts_facts lv body h.2
-    exact ⟨by simp [okStmt, f1.ok], by simp [wStmt, f1.w, h.1.2], by simp [dfStmt, f1.df], by simp [toSrcStmt, Src.labelsOf, f1.labs]⟩
+    exact ⟨by simp [okStmt, f1.ok], by simp [wStmt, f1.w, h.1.2]⟩
   | .for_ init hd inc body, h => by
     simp only [cgStmt, Bool.and_eq_true] at h
     have f1 := cg_stmts_facts lv body h.2
     obtain ⟨fi, si⟩ := simple_facts init h.1.1.2
     obtain ⟨fe, se⟩ := simple_facts inc h.1.2
-    exact ⟨by simp [okStmt, f1.ok, fi.ok, fe.ok], by simp [wStmt, f1.w, h.1.1.1.2, si, se, fi.w, fe.w], by simp [dfStmt, f1.df, fi.df, fe.df],
-      by simp [toSrcStmt, Src.labelsOf, f1.labs, fi.labs, fe.labs]⟩
-  | .label _, h => by simp [cgStmt] at h
-  | .jump _, h => by simp [cgStmt] at h
-  | .call _, h => by simp [cgStmt] at h
-  | .brk, _ => ⟨rfl, rfl, rfl, by simp [toSrcStmt, Src.labelsOf]⟩
+    exact ⟨by simp [okStmt, f1.ok, fi.ok, fe.ok], by simp [wStmt, f1.w, h.1.1.1.2, si, se, fi.w, fe.w]⟩
+  | .label _, _ => ⟨rfl, rfl⟩
+  | .jump _, _ => ⟨rfl, rfl⟩
+  | .call _, _ => ⟨rfl, rfl⟩
+  | .brk, _ => ⟨rfl, rfl⟩
   | .switch hdr cs, h => by
     simp only [cgStmt, Bool.and_eq_true] at h
     have f1 := cg_cases_facts lv hdr.name cs h.2
     obtain ⟨a, b⟩ := nameOK_split hdr.name h.1.1.1.1.2
-    exact ⟨by simp [okStmt, b, f1.ok], by simp [wStmt, a, f1.w], by simp [dfStmt, f1.df], by simp [toSrcStmt, Src.labelsOf, f1.labs]⟩
+    exact ⟨by simp [okStmt, b, f1.ok], by simp [wStmt, a, f1.w]⟩
   | .macroCall .., h => by simp [cgStmt] at h
 theorem cg_stmts_facts (lv : Nat) : ∀ (ss : Stmts), cgStmts lv ss = true → StmtsFacts ss
-  | .nil, _ => ⟨rfl, rfl, rfl, by simp [toSrcStmts, Src.labelsOfStmts]⟩
+  | .nil, _ => ⟨rfl, rfl⟩
   | .cons s r, h => by
     simp only [cgStmts, Bool.and_eq_true] at h
     have f1 := cg_stmt_facts lv s h.1
     have f2 := cg_stmts_facts lv r h.2
-    exact ⟨by simp [okStmts, f1.ok, f2.ok], by simp [wStmts, f1.w, f2.w], by simp [dfStmts, f1.df, f2.df],
-      by simp [toSrcStmts, Src.labelsOfStmts, f1.labs, f2.labs]⟩
+    exact ⟨by simp [okStmts, f1.ok, f2.ok], by simp [wStmts, f1.w, f2.w]⟩
 theorem cg_elifs_facts (lv : Nat) : ∀ (es : Elifs), cgElifs lv es = true → ElifsFacts es
-  | .nil, _ => ⟨rfl, rfl, rfl, rfl, by simp [toSrcElifs, Src.labelsOfBranches]⟩
+  | .nil, _ => ⟨rfl, rfl⟩
   | .cons neg hdrs body r, h => by
     simp only [cgElifs, Bool.and_eq_true] at h
     have f1 := cg_stmts_facts lv body h.1.2
     have f2 := cg_elifs_facts lv r h.2
-    refine ⟨by simp [okElifs, f1.ok, f2.ok], by simp [wElifs, h.1.1, f1.w, f2.w], ?_, ?_,
-      by simp [toSrcElifs, Src.labelsOfBranches, f1.labs, f2.labs]⟩
-    · simp only [dfElifsA, f1.df, f2.dfA]; cases neg <;> rfl
-    · simp only [dfElifsB, f1.df, f2.dfB]; cases neg <;> rfl
-theorem cg_cases_facts (lv : Nat) (sw : String) : ∀ (cs : Cases), cgCases lv sw cs = true → CasesFacts sw cs
-  | .nil, _ => ⟨rfl, rfl, rfl, by simp [toSrcCases, Src.labelsOfCases]⟩
+    exact ⟨by simp [okElifs, f1.ok, f2.ok], by simp [wElifs, h.1.1, f1.w, f2.w]⟩
+theorem cg_cases_facts (lv : Nat) (sw : String) : ∀ (cs : Cases), cgCases lv sw cs = true → CasesFacts cs
+  | .nil, _ => ⟨rfl, rfl⟩
   | .cons true n ps body r, h => by
     simp only [cgCases, Bool.and_eq_true] at h
     have f1 := cg_stmts_facts lv body h.1.2
     have f2 := cg_cases_facts lv sw r h.2
-    refine ⟨by simp [okCases, f1.ok, f2.ok], by simp [wCases, f1.w, f2.w], ?_, by simp [toSrcCases, Src.labelsOfCases, f1.labs, f2.labs]⟩
-    simp only [dfCases, f1.df, f2.df]; split <;> rfl
+    exact ⟨by simp [okCases, f1.ok, f2.ok], by simp [wCases, f1.w, f2.w]⟩
   | .cons false n ps body r, h => by
     simp only [cgCases, Bool.false_or, Bool.and_eq_true] at h
     have f1 := cg_stmts_facts lv body h.1.2
     have f2 := cg_cases_facts lv sw r h.2
-    refine ⟨by simp [okCases, f1.ok, f2.ok], by simp [wCases, f1.w, f2.w, h.1.1.1.1], ?_, by simp [toSrcCases, Src.labelsOfCases, f1.labs, f2.labs]⟩
-    simp only [dfCases, f1.df, f2.df]; split <;> rfl
+    exact ⟨by simp [okCases, f1.ok, f2.ok], by simp [wCases, f1.w, f2.w, h.1.1.1.1]⟩
 end
 
-/-- programs of the fragment: no macros, routines numbered 0, 1, 2, … in source order, bodies in the fragment -/
+/-! ### the labels a statement defines are labels the source semantics translates -/
+
+mutual
+theorem df_sub : ∀ (s : Stmt) (n : String), n ∈ dfStmt s → n ∈ dfS (toSrcStmt s)
+  | .label m, n, h => by simpa [dfStmt, toSrcStmt, dfS] using h
+  | .ite neg hdrs body elifs hasElse els, n, h => by
+    simp only [dfStmt, List.mem_append] at h
+    simp only [toSrcStmt, dfS, dfSBranches, List.mem_append]
+    rcases h with ((h | h) | h) | h
+    · exact .inl (.inl (dfs_sub body n h))
+    · exact .inl (.inr (dfA_sub elifs n h))
+    · cases hasElse with
+      | true => exact .inr (by simpa using dfs_sub els n (by simpa using h))
+      | false => simp at h
+    · exact .inl (.inr (dfB_sub elifs n h))
+  | .switch hdr cs, n, h => by
+    simp only [dfStmt] at h; simp only [toSrcStmt, dfS]; exact dfc_sub hdr.name cs n h
+  | .forever body, n, h => by
+    simp only [dfStmt] at h; simp only [toSrcStmt, dfS]; exact dfs_sub body n h
+  | .while_ _ _ body, n, h => by
+    simp only [dfStmt] at h; simp only [toSrcStmt, dfS]; exact dfs_sub body n h
+  | .for_ init _ inc body, n, h => by
+    simp only [dfStmt, List.mem_append] at h
+    simp only [toSrcStmt, dfS, List.mem_append]
+    rcases h with (h | h) | h
+    · exact .inl (.inl (df_sub init n h))
+    · exact .inr (dfs_sub body n h)
+    · exact .inl (.inr (df_sub inc n h))
+  | .op .., n, h => by simp [dfStmt] at h
+  | .inl .., n, h => by simp [dfStmt] at h
+  | .with_ .., n, h => by simp [dfStmt] at h
+  | .jump _, n, h => by simp [dfStmt] at h
+  | .call _, n, h => by simp [dfStmt] at h
+  | .ret, n, h => by simp [dfStmt] at h
+  | .end_, n, h => by simp [dfStmt] at h
+  | .hold, n, h => by simp [dfStmt] at h
+  | .brk, n, h => by simp [dfStmt] at h
+  | .cont, n, h => by simp [dfStmt] at h
+  | .brkLoop, n, h => by simp [dfStmt] at h
+  | .macroCall .., n, h => by simp [dfStmt] at h
+theorem dfs_sub : ∀ (ss : Stmts) (n : String), n ∈ dfStmts ss → n ∈ dfSStmts (toSrcStmts ss)
+  | .nil, n, h => by simp [dfStmts] at h
+  | .cons s r, n, h => by
+    simp only [dfStmts, List.mem_append] at h
+    simp only [toSrcStmts, dfSStmts, List.mem_append]
+    exact h.imp (df_sub s n) (dfs_sub r n)
+theorem dfA_sub : ∀ (es : Elifs) (n : String), n ∈ dfElifsA es → n ∈ dfSBranches (toSrcElifs es)
+  | .nil, n, h => by simp [dfElifsA] at h
+  | .cons neg hs body r, n, h => by
+    simp only [dfElifsA, List.mem_append] at h
+    simp only [toSrcElifs, dfSBranches, List.mem_append]
+    rcases h with h | h
+    · cases neg with
+      | true => exact .inl (dfs_sub body n (by simpa using h))
+      | false => simp at h
+    · exact .inr (dfA_sub r n h)
+theorem dfB_sub : ∀ (es : Elifs) (n : String), n ∈ dfElifsB es → n ∈ dfSBranches (toSrcElifs es)
+  | .nil, n, h => by simp [dfElifsB] at h
+  | .cons neg hs body r, n, h => by
+    simp only [dfElifsB, List.mem_append] at h
+    simp only [toSrcElifs, dfSBranches, List.mem_append]
+    rcases h with h | h
+    · cases neg with
+      | false => exact .inl (dfs_sub body n (by simpa using h))
+      | true => simp at h
+    · exact .inr (dfB_sub r n h)
+theorem dfc_sub (sw : String) : ∀ (cs : Cases) (n : String), n ∈ dfCases cs → n ∈ dfSCases (toSrcCases sw cs)
+  | .nil, n, h => by simp [dfCases] at h
+  | .cons true nm ps body r, n, h => by
+    simp only [dfCases, List.mem_append] at h
+    simp only [toSrcCases, dfSCases, List.mem_append]
+    rcases h with h | h
+    · split at h
+      · simp at h
+      · exact .inl (dfs_sub body n h)
+    · exact .inr (dfc_sub sw r n h)
+  | .cons false nm ps body r, n, h => by
+    simp only [dfCases, List.mem_append] at h
+    simp only [toSrcCases, dfSCases, List.mem_append]
+    rcases h with h | h
+    · split at h
+      · simp at h
+      · exact .inl (dfs_sub body n h)
+    · exact .inr (dfc_sub sw r n h)
+end
+
+/-- the user labels defined in the program -/
+def allDefs (p : Program) : List String := p.routines.flatMap fun r => dfStmts r.body
+
+/-- programs of the fragment: no macros, routines numbered 0, 1, 2, … in source order, bodies in the fragment; every user label
+is defined once, and every label mentioned (`jump`, `call`) is defined -/
 def CgProg (lv : Nat) (p : Program) : Prop :=
-  p.macros = [] ∧ seqFrom p.routines 0 = true ∧ ∀ r ∈ p.routines, cgStmts lv r.body = true
+  p.macros = [] ∧ seqFrom p.routines 0 = true ∧ (∀ r ∈ p.routines, cgStmts lv r.body = true) ∧ (allDefs p).Nodup ∧
+  ∀ r ∈ p.routines, ∀ n ∈ mlStmts r.body, n ∈ allDefs p
 
 instance (lv : Nat) (p : Program) : Decidable (CgProg lv p) := by unfold CgProg; infer_instance
 
 theorem frontGuard_of_cg (lv : Nat) (p : Program) (h : CgProg lv p) : FrontGuard p := by
-  obtain ⟨hm, _, hall⟩ := h
-  refine ⟨⟨by rw [hm]; simp, fun r hr => (cg_stmts_facts lv r.body (hall r hr)).ok⟩, by rw [hm]; simp,
-    fun r hr => (cg_stmts_facts lv r.body (hall r hr)).w, ?_⟩
-  have : (p.routines.flatMap fun r => dfStmts r.body) = [] := by
-    simp only [List.flatMap_eq_nil_iff]
-    intro r hr
-    exact (cg_stmts_facts lv r.body (hall r hr)).df
-  rw [this]; exact List.nodup_nil
+  obtain ⟨hm, _, hall, hnd, _⟩ := h
+  exact ⟨⟨by rw [hm]; simp, fun r hr => (cg_stmts_facts lv r.body (hall r hr)).ok⟩, by rw [hm]; simp,
+    fun r hr => (cg_stmts_facts lv r.body (hall r hr)).w, hnd⟩
 
 /-! ### the graph of the program -/
 
-theorem graph_fold (fuel : Nat) (ms : List Src.Macro) (env : Src.Env) (fell : Nat) : ∀ (bodies : List Stmts),
-    (∀ body ∈ bodies, ∀ k b, Grow b (Src.trStmts fuel ms env (toSrcStmts body) k b).1) → ∀ (acc : Src.B × List (Option Nat)),
-    Grow acc.1 ((bodies.map fun b => (⟨some (toSrcStmts b)⟩ : Src.Routine)).foldl (graphStep fuel ms env fell) acc).1 ∧
+theorem graph_fold (fuel : Nat) (ms : List Src.Macro) (env : Src.Env) (fell : Nat) (Z : Nat) : ∀ (bodies : List Stmts),
+    (∀ body ∈ bodies, ∀ k b, Grow Z b (Src.trStmts fuel ms env (toSrcStmts body) k b).1) → ∀ (acc : Src.B × List (Option Nat)),
+    Grow Z acc.1 ((bodies.map fun b => (⟨some (toSrcStmts b)⟩ : Src.Routine)).foldl (graphStep fuel ms env fell) acc).1 ∧
     (∀ j, j < acc.2.length →
       ((bodies.map fun b => (⟨some (toSrcStmts b)⟩ : Src.Routine)).foldl (graphStep fuel ms env fell) acc).2[j]? = acc.2[j]?) ∧
     ∀ j body, bodies[j]? = some body → ∃ bj,
       ((bodies.map fun b => (⟨some (toSrcStmts b)⟩ : Src.Routine)).foldl (graphStep fuel ms env fell) acc).2[acc.2.length + j]? =
         some (some (Src.trStmts fuel ms env (toSrcStmts body) fell bj).2) ∧
-      Grow (Src.trStmts fuel ms env (toSrcStmts body) fell bj).1
-        ((bodies.map fun b => (⟨some (toSrcStmts b)⟩ : Src.Routine)).foldl (graphStep fuel ms env fell) acc).1 := by
+      Grow Z (Src.trStmts fuel ms env (toSrcStmts body) fell bj).1
+        ((bodies.map fun b => (⟨some (toSrcStmts b)⟩ : Src.Routine)).foldl (graphStep fuel ms env fell) acc).1 ∧
+      Grow Z acc.1 bj := by
   intro bodies
   induction bodies with
   | nil => intro _ acc; exact ⟨Grow.refl _, fun _ _ => rfl, fun j body h => by simp at h⟩
@@ -196,23 +266,57 @@ theorem graph_fold (fuel : Nat) (ms : List Src.Macro) (env : Src.Env) (fell : Na
       | zero =>
         simp only [List.getElem?_cons_zero, Option.some.injEq] at hj
         subst hj
-        refine ⟨acc.1, ?_, g1⟩
+        refine ⟨acc.1, ?_, g1, Grow.refl _⟩
         rw [Nat.add_zero, keep acc.2.length (by simp)]
         simp
       | succ j =>
         simp only [List.getElem?_cons_succ] at hj
-        obtain ⟨bj, h1, h2⟩ := paths j body hj
-        refine ⟨bj, ?_, h2⟩
+        obtain ⟨bj, h1, h2, h3⟩ := paths j body hj
+        refine ⟨bj, ?_, h2, g0.trans h3⟩
         rw [← h1]
         congr 1
         simp; omega
 
+/-- a node that changed while the routines were translated was changed last by one of them -/
+theorem graph_changer (fuel : Nat) (ms : List Src.Macro) (env : Src.Env) (fell : Nat) (Z : Nat) : ∀ (bodies : List Stmts),
+    (∀ body ∈ bodies, ∀ k b, Grow Z b (Src.trStmts fuel ms env (toSrcStmts body) k b).1) → ∀ (acc : Src.B × List (Option Nat)) (i : Nat),
+    i < (tbl acc.1).length →
+    (tbl ((bodies.map fun b => (⟨some (toSrcStmts b)⟩ : Src.Routine)).foldl (graphStep fuel ms env fell) acc).1)[i]? ≠ (tbl acc.1)[i]? →
+    ∃ (j : Nat) (body : Stmts) (bj : Src.B), bodies[j]? = some body ∧ Grow Z acc.1 bj ∧
+      Grow Z (Src.trStmts fuel ms env (toSrcStmts body) fell bj).1
+        ((bodies.map fun b => (⟨some (toSrcStmts b)⟩ : Src.Routine)).foldl (graphStep fuel ms env fell) acc).1 ∧
+      (tbl (Src.trStmts fuel ms env (toSrcStmts body) fell bj).1)[i]? =
+        (tbl ((bodies.map fun b => (⟨some (toSrcStmts b)⟩ : Src.Routine)).foldl (graphStep fuel ms env fell) acc).1)[i]? ∧
+      (tbl (Src.trStmts fuel ms env (toSrcStmts body) fell bj).1)[i]? ≠ (tbl bj)[i]? := by
+  intro bodies
+  induction bodies with
+  | nil => intro _ acc i _ h; exact absurd rfl h
+  | cons b0 rest ih =>
+    intro hall acc i hi hne
+    simp only [List.map_cons, List.foldl_cons] at hne ⊢
+    have g0 := hall b0 (by simp) fell acc.1
+    have hstep : graphStep fuel ms env fell acc ⟨some (toSrcStmts b0)⟩ =
+        ((Src.trStmts fuel ms env (toSrcStmts b0) fell acc.1).1, acc.2 ++ [some (Src.trStmts fuel ms env (toSrcStmts b0) fell acc.1).2]) := rfl
+    rw [hstep] at hne ⊢
+    obtain ⟨g1, _, _⟩ := graph_fold fuel ms env fell Z rest (fun b hb => hall b (by simp [hb]))
+      ((Src.trStmts fuel ms env (toSrcStmts b0) fell acc.1).1, acc.2 ++ [some (Src.trStmts fuel ms env (toSrcStmts b0) fell acc.1).2])
+    simp only at g1
+    by_cases hc : (tbl ((rest.map fun b => (⟨some (toSrcStmts b)⟩ : Src.Routine)).foldl (graphStep fuel ms env fell)
+        ((Src.trStmts fuel ms env (toSrcStmts b0) fell acc.1).1, acc.2 ++ [some (Src.trStmts fuel ms env (toSrcStmts b0) fell acc.1).2])).1)[i]? =
+        (tbl (Src.trStmts fuel ms env (toSrcStmts b0) fell acc.1).1)[i]?
+    · exact ⟨0, b0, acc.1, rfl, Grow.refl _, g1, hc.symm, by rw [← hc]; exact hne⟩
+    · obtain ⟨j, body, bj, h1, h2, h3, h4, h5⟩ := ih (fun b hb => hall b (by simp [hb]))
+        ((Src.trStmts fuel ms env (toSrcStmts b0) fell acc.1).1, acc.2 ++ [some (Src.trStmts fuel ms env (toSrcStmts b0) fell acc.1).2]) i
+        (Nat.lt_of_lt_of_le hi g0.len) hc
+      exact ⟨j + 1, body, bj, by simpa using h1, g0.trans h2, h3, h4, h5⟩
+
 /-! ### the tables of the front end -/
 
-theorem compileBody_cg (cx : Cx) (fuel : Nat) (lv : Nat) (body : Stmts) (hg : cgStmts lv body = true) {s : St} {its : List LItem} {s' : St}
+theorem compileBody_cg (cx : Cx) (fuel : Nat) (lv : Nat) (body : Stmts) (hg : cgStmts lv body = true)
+    (hu : ∀ n ∈ mlStmts body, n ∈ cx.defs) {s : St} {its : List LItem} {s' : St}
     (hl : s.loops = []) (hc : s.cases = []) (h : compileBody [] true body s = .ok (its, s')) :
-    s'.loops = [] ∧ s'.cases = [] ∧ ∃ lb s1 ops s2, s1.loops = [] ∧ s1.cases = [] ∧ cStmts [] lb body s1 = .ok (ops, s2) ∧
-      (its = ops ∨ ∃ o, its = ops ++ [.op ⟨o, Gen.op_dummy_end, []⟩]) := by
+    s'.loops = [] ∧ s'.cases = [] ∧ NamedLe s s' ∧ ∃ lb s1 ops s2, s1.loops = [] ∧ s1.cases = [] ∧ cStmts [] lb body s1 = .ok (ops, s2) ∧
+      NamedLe s2 s' ∧ (its = ops ∨ ∃ o, its = ops ++ [.op ⟨o, Gen.op_dummy_end, []⟩]) := by
   unfold compileBody at h
   cases hv : vbadStmts body with
   | true => rw [hv] at h; simp [fail_ok] at h
@@ -222,7 +326,7 @@ theorem compileBody_cg (cx : Cx) (fuel : Nat) (lv : Nat) (body : Stmts) (hg : cg
   obtain ⟨lb, s1, h1, ops, s2, h2, h3⟩ := h
   simp only [Prod.mk.injEq] at h1
   obtain ⟨rfl, rfl⟩ := h1
-  have hp := cStmts_c cx fuel lv body s.lbc hg { } ⟨rfl, rfl⟩ _ _ _ h2
+  have hp := cStmts_c cx fuel lv body s.lbc hg hu { } (envOK_empty cx) _ _ _ h2
   have l2 : s2.loops = [] := by rw [hp.loops]; exact hl
   have c2 : s2.cases = [] := by rw [hp.cases]; exact hc
   split at h3
@@ -231,26 +335,27 @@ theorem compileBody_cg (cx : Cx) (fuel : Nat) (lv : Nat) (body : Stmts) (hg : cg
     simp only [Prod.mk.injEq] at h5
     obtain ⟨rfl, rfl⟩ := h5
     obtain ⟨rfl, rfl⟩ := genOp_spec h4
-    exact ⟨l2, c2, s.lbc, (s.tickedLbl (vlStmts body)).tickedOp (voStmts body), ops, s2, hl, hc, h2, .inr ⟨_, rfl⟩⟩
+    exact ⟨l2, c2, hp.named, s.lbc, (s.tickedLbl (vlStmts body)).tickedOp (voStmts body), ops, s2, hl, hc, h2, NamedLe.refl _, .inr ⟨_, rfl⟩⟩
   · simp only [pure_ok, Prod.mk.injEq] at h3
     obtain ⟨rfl, rfl⟩ := h3
-    exact ⟨l2, c2, s.lbc, (s.tickedLbl (vlStmts body)).tickedOp (voStmts body), its, s', hl, hc, h2, .inl rfl⟩
+    exact ⟨l2, c2, hp.named, s.lbc, (s.tickedLbl (vlStmts body)).tickedOp (voStmts body), its, s', hl, hc, h2, NamedLe.refl _, .inl rfl⟩
 
 theorem compileRoutines_cg (cx : Cx) (fuel : Nat) (lv : Nat) : ∀ (rs : List Routine) (a : Nat) (t : Tables) (s : St) (t' : Tables) (s' : St),
-    seqFrom rs a = true → t.ops.length = a → t.infos.length = a → (∀ r ∈ rs, cgStmts lv r.body = true) → s.loops = [] → s.cases = [] →
+    seqFrom rs a = true → t.ops.length = a → t.infos.length = a → (∀ r ∈ rs, cgStmts lv r.body = true) →
+    (∀ r ∈ rs, ∀ n ∈ mlStmts r.body, n ∈ cx.defs) → s.loops = [] → s.cases = [] →
     compileRoutines [] rs a t s = .ok (t', s') →
-    (∀ i, i < a → t'.ops[i]? = t.ops[i]?) ∧
+    (∀ i, i < a → t'.ops[i]? = t.ops[i]?) ∧ NamedLe s s' ∧
     ∀ j r, rs[j]? = some r → ∃ its lb s1 ops s2, t'.ops[a + j]? = some its ∧ s1.loops = [] ∧ s1.cases = [] ∧
-      cStmts [] lb r.body s1 = .ok (ops, s2) ∧ (its = ops ∨ ∃ o, its = ops ++ [.op ⟨o, Gen.op_dummy_end, []⟩]) := by
+      cStmts [] lb r.body s1 = .ok (ops, s2) ∧ NamedLe s2 s' ∧ (its = ops ∨ ∃ o, its = ops ++ [.op ⟨o, Gen.op_dummy_end, []⟩]) := by
   intro rs
   induction rs with
   | nil =>
-    intro a t s t' s' _ _ _ _ _ _ h
+    intro a t s t' s' _ _ _ _ _ _ _ h
     simp only [compileRoutines, pure_ok, Prod.mk.injEq] at h
     obtain ⟨rfl, rfl⟩ := h
-    exact ⟨fun _ _ => rfl, fun j r hj => by simp at hj⟩
+    exact ⟨fun _ _ => rfl, NamedLe.refl _, fun j r hj => by simp at hj⟩
   | cons r0 rs ih =>
-    intro a t s t' s' hseq hlo hli hall hl hc h
+    intro a t s t' s' hseq hlo hli hall hu hl hc h
     simp only [seqFrom, Bool.and_eq_true] at hseq
     have hid := routineId_seq r0 a hseq.1
     simp only [compileRoutines, hid] at h
@@ -258,7 +363,7 @@ theorem compileRoutines_cg (cx : Cx) (fuel : Nat) (lv : Nat) : ∀ (rs : List Ro
     · simp [fail_ok] at h
     · simp only [bind_ok] at h
       obtain ⟨its, s1, h1, h2⟩ := h
-      obtain ⟨l1, c1, lb, sa, ops, sb, la, ca, hcs, hits⟩ := compileBody_cg cx fuel lv r0.body (hall r0 (by simp)) hl hc h1
+      obtain ⟨l1, c1, n1, lb, sa, ops, sb, la, ca, hcs, nb, hits⟩ := compileBody_cg cx fuel lv r0.body (hall r0 (by simp)) (hu r0 (by simp)) hl hc h1
       have e1 : ((t.enlarge a).put a r0.info r0.coro its).ops = t.ops ++ [its] := by
         have : ((t.enlarge a).put a r0.info r0.coro its).ops = (t.enlarge a).ops.set a its := by cases r0.coro <;> rfl
         rw [this]
@@ -266,15 +371,16 @@ theorem compileRoutines_cg (cx : Cx) (fuel : Nat) (lv : Nat) : ∀ (rs : List Ro
         rw [← hlo]; simp
       have e2 : ((t.enlarge a).put a r0.info r0.coro its).infos.length = a + 1 := by
         simp [Tables.put, Tables.enlarge, hli]
-      obtain ⟨keep, rest⟩ := ih (a + 1) _ _ _ _ hseq.2 (by rw [e1]; simp [hlo]) e2 (fun x hx => hall x (by simp [hx])) l1 c1 h2
-      refine ⟨fun i hi => ?_, fun j r hj => ?_⟩
+      obtain ⟨keep, nrest, rest⟩ := ih (a + 1) _ _ _ _ hseq.2 (by rw [e1]; simp [hlo]) e2 (fun x hx => hall x (by simp [hx]))
+        (fun x hx => hu x (by simp [hx])) l1 c1 h2
+      refine ⟨fun i hi => ?_, n1.trans nrest, fun j r hj => ?_⟩
       · rw [keep i (by omega), e1]
         exact List.getElem?_append_left (by omega)
       · cases j with
         | zero =>
           simp only [List.getElem?_cons_zero, Option.some.injEq] at hj
           subst hj
-          refine ⟨its, lb, sa, ops, sb, ?_, la, ca, hcs, hits⟩
+          refine ⟨its, lb, sa, ops, sb, ?_, la, ca, hcs, nb.trans nrest, hits⟩
           rw [Nat.add_zero, keep a (by omega), e1, ← hlo]
           simp
         | succ j =>
